@@ -4,23 +4,27 @@ import numpy as np
 import vlib
 from vlib import cz, czl, tolq, fc, fcl, fl
 
-LEVEL_TEXT = ("Coq theorems (abstract field with conjugation + twiddle character; order clauses in the ordered *-field; any data, "
-              "order m, NFFT >= 2m-1) about the Gallina model of minvar: what the psi loop stores, psi[NFFT-K]=conj psi[K] so the DFT is "
-              "real, Musicus' closed form (DFT of psi = sum_k |A_k(f)|^2/P_k, by induction over the step-up recursion), the LDL^H "
-              "reading of the Levinson invariant (U R U^H = diag P_k) and the quadratic form e^H R^-1 e = sum_k |A_k(f)|^2/P_k, hence "
-              "PSD_f = sampling/(e^H R^-1 e), real and > 0; returned A=[1,a], k are arburg's of order m-1.  Tie: exact in-Coq "
-              "correspondence at Gaussian rationals (NFFT 1,2,4 incl. aliased grids and raises), binary64 in-Coq runs for NFFT<=64 "
-              "(implementation's Burg fed to the model, and the model's own Burg), search against an independent solve-based oracle.")
-TRUSTED = ["Coq 8.16.1 kernel + vm_compute", "hand-written model coq/Model/Minvar.v + Model/Burg.v (tie = correspondence runs)",
+LEVEL_TEXT = ("Coq theorems (abstract field with conjugation + twiddle character of exact period NFFT; order clauses in the ordered "
+              "*-field; any data, any order m, any NFFT >= 2m-1, any sampling) about the Gallina model of minvar: what the psi loop "
+              "stores, psi[NFFT-K]=conj psi[K] so fft(psi) is real, Musicus' closed form (fft(psi)_f = sum_k |A_k(f)|^2/P_k, induction over "
+              "the step-up recursion), the LDL^H reading of the Levinson invariant (U R U^H = diag P_k), e^H R^-1 e = sum_k |A_k(f)|^2/P_k "
+              "for every solution of R y = e, LEVINSON on the inverse-Levinson lags of the Burg model reproduces it, hence "
+              "PSD_f = sampling/(e^H R^-1 e) with R the Toeplitz matrix implied by the order m-1 Burg model, real and > 0; the returned "
+              "A=[1,a], k are arburg's.  Tie: exact in-Coq correspondence at Gaussian rationals (NFFT 1,2,4 incl. aliased grids and "
+              "raises), binary64 in-Coq runs for NFFT<=64 (model fed the implementation's Burg output, and the model with its own "
+              "Burg), search on the implementation against an independent lattice + linear-solve oracle.")
+TRUSTED = ["Coq 8.16.1 kernel + vm_compute", "hand-written models coq/Model/Minvar.v and Model/Burg.v (tie = correspondence runs)",
            "binary64 runs use a harness-supplied twiddle table exp(-2 pi i j/n) and a tolerance; numpy.fft is modelled as the DFT sum",
            "Python harness; numpy.linalg.solve in the search oracle"]
-UNPROVED = ["existence of the lag sequence r implied by (r0, k_1..k_p) for every Burg output is not proved in general "
-            "(acf_of_refl is defined and checked by Examples and by the search); theorems take r with levinson r = (.., k) as hypothesis",
-            "pminvar's side conversion / scaling pipeline is not part of C16's theorems (search: interior bins only)"]
-ASSUMPTIONS = ["exact arithmetic in the theorems", "NFFT >= 2*order-1 (no aliasing of the psi lags); Burg stages non-degenerate as enforced by the code's rho<=0 test"]
+UNPROVED = ["every clause of the statement is proved for NFFT >= 2m-1 in exact arithmetic (R^-1 e is quantified as 'every y with R y = e')",
+            "aliased grids NFFT < 2m-1 (outside the property; the pinned test lives there): modelled exactly, correspondence only",
+            "binary64 rounding of the implementation: tolerance runs only",
+            "pminvar's side conversion / scaling pipeline: search only (interior bins), not part of C16's theorems"]
+ASSUMPTIONS = ["exact arithmetic in the theorems", "NFFT >= 2*order-1 (no aliasing of the psi lags)",
+               "data length N with N.1 <> 0 in the field (always true in the ordered *-field)"]
 RULE = ("QcC: low-bit dyadic real/complex data N=4..10, m=0..4, NFFT in {1,2,4} (aliased and raising configurations included); "
-        "binary64 in Coq: N=8..48, m=2..8, NFFT=2m-1..64 even/odd; search: noise / tones / AR / scaled data N=8..128, "
-        "m=2..min(N/2,16), NFFT>=2m even/odd, six sampling values; non-trivial = m>=3 and non-constant data")
+        "binary64 in Coq: N=8..48, m=2..8, NFFT=m..64 even/odd; search: noise / tones / AR / integer / scaled data N=8..128, "
+        "m=2..min(N/2,16), NFFT>=2m even/odd up to 4096, six sampling values; non-trivial = m>=3 (search, binary64) or m>=2 (QcC)")
 
 PRE_Q = """Require Import Spectrum.Theory.Ops Spectrum.Theory.Vec Spectrum.Theory.Dft Spectrum.Model.Levinson Spectrum.Model.Burg
   Spectrum.Model.Minvar Spectrum.Instances.QcC Spectrum.Instances.QcCTw.
@@ -190,13 +194,13 @@ def run(ctx):
 
     # ------------------------------------------------------------------ exact correspondence at Gaussian rationals
     cases = []; meta = []
-    n = ctx.q(70, 420)
+    n = ctx.q(150, 900)
     tries = 0
     while len(cases) < n and tries < 50 * n:
         tries += 1
         cplx = bool(rng.integers(0, 2))
-        m = int(rng.choice([0, 1, 2, 2, 2, 3, 3, 4]))
-        nfft = int(rng.choice([1, 2, 4, 4, 4]))
+        m = int(rng.choice([0, 1, 2, 2, 2, 2, 3, 3, 3, 4]))
+        nfft = int(rng.choice([1, 2, 2, 4, 4, 4, 4, 4]))
         N = int(rng.integers(max(4, m + 1), 11))
         x = lowbit(rng, N, cplx)
         s = float(rng.choice([1.0, 0.5, 2.0, 1024.0, 0.375]))
@@ -235,7 +239,7 @@ def run(ctx):
 
     # ------------------------------------------------------------------ binary64 correspondence inside Coq, NFFT <= 64
     cases = []; meta = []
-    n = ctx.q(40, 240)
+    n = ctx.q(100, 600)
     tries = 0
     while len(cases) < 2 * n and tries < 50 * n:
         tries += 1
@@ -279,7 +283,7 @@ def run(ctx):
         ctx.corr_disagreement('minvar', i, meta[i])
 
     # ------------------------------------------------------------------ search on the implementation
-    for it in range(ctx.q(260, 2600)):
+    for it in range(ctx.q(1500, 12000)):
         cplx = bool(rng.integers(0, 2)); N = int(rng.integers(8, 129))
         m = int(rng.integers(2, min(N // 2, 16) + 1))
         mode = it % 4
